@@ -917,8 +917,6 @@ Proof.
     + destruct (stale p u) eqn:Hst; [intros X; destruct (app_self_neq _ _ X)|].
       apply (Reuse e0 u); auto.
   - destruct out as [|[|[|n]]]; cbn [f_hand]; try (intros X; destruct (app_self_neq _ _ X)).
-    + destruct (build_endpoint _ k d g) as [p2 e2]. intros X; destruct (app_self_neq _ _ X).
-    + destruct (build_endpoint _ k d g) as [p2 e2]. intros X; destruct (app_self_neq _ _ X).
   - destruct (nth_error (p_eps p) e0) as [u|]; intros X; destruct (app_self_neq _ _ X).
   - intros X; destruct (app_self_neq _ _ X).
   - destruct (nth_error (p_eps p) e0) as [u|] eqn:Hn; [|intros X; destruct (app_self_neq _ _ X)].
